@@ -20,6 +20,18 @@ From Coq Require Import List Arith Bool PeanoNat Lia.
 From Krrood Require Import Onto.RegistrySpec.
 Import ListNotations.
 
+(* a query variable: declared (its domain generator not started), declared in a graph that was cleared since
+   (outside the model), or evaluated (the domain it cached) *)
+Inductive vstate := VPending | VStale | VCached (l : list obj).
+Definition cache_of (v : cls * vstate) : list obj := match snd v with VCached l => l | _ => [] end.
+
+Fixpoint set_nth {A} (k : nat) (x : A) (l : list A) : list A :=
+  match l, k with
+  | [], _ => []
+  | _ :: t, 0 => x :: t
+  | a :: t, S k' => a :: set_nth k' x t
+  end.
+
 Record wrapper := W { w_obj : obj; w_cls : cls; w_pyid : pyid; w_idx : idx }.
 
 Definition edge := (idx * idx * fld)%type.
@@ -127,13 +139,13 @@ Section Hier.
     live : list orec;                 (* instances that exist in memory (weak-reference census) *)
     user : list obj;                  (* instances the program still references *)
     g : reg;                          (* the current SymbolGraph singleton *)
-    vars : list (cls * list obj);     (* _id_expression_map_: variables of evaluated queries with their cached domain *)
+    vars : list (cls * vstate);       (* _id_expression_map_: the variables of all queries made so far *)
     next : nat }.
 
   Definition init : st := ST [] [] empty_reg [] 0.
 
-  Definition pinned (vs : list (cls * list obj)) (o : obj) : bool :=
-    existsb (fun v => existsb (Nat.eqb o) (snd v)) vs.
+  Definition pinned (vs : list (cls * vstate)) (o : obj) : bool :=
+    existsb (fun v => existsb (Nat.eqb o) (cache_of v)) vs.
 
   Definition somes (l : list (option obj)) : list obj :=
     flat_map (fun x => match x with Some o => [o] | None => [] end) l.
@@ -155,11 +167,19 @@ Section Hier.
     | QueryE T =>
         let r := sweep (live s) (g s) in
         let res := instances (live s) r T in
-        (ST (live s) (user s) r (vars s ++ [(T, dedup (somes res))]) (next s), OInst res)
-    | ReEval k =>
+        (ST (live s) (user s) r (vars s ++ [(T, VCached (dedup (somes res)))]) (next s), OInst res)
+    | DeclV T =>
+        (* let(T, None) only creates the generator over the registry; nothing is read, nothing is held *)
+        (ST (live s) (user s) (g s) (vars s ++ [(T, VPending)]) (next s), ONone)
+    | EvalV k =>
         let r := sweep (live s) (g s) in
         match nth_error (vars s) k with
-        | Some v => (ST (live s) (user s) r (vars s) (next s), OInst (map Some (snd v)))
+        | Some (T, VPending) =>
+            (* first evaluation: the registry is enumerated NOW; what was seen is cached *)
+            let res := instances (live s) r T in
+            (ST (live s) (user s) r (set_nth k (T, VCached (dedup (somes res))) (vars s)) (next s), OInst res)
+        | Some (T, VCached l) => (ST (live s) (user s) r (vars s) (next s), OInst (map Some l))
+        | Some (T, VStale) => (s, OErr)
         | None => (s, OErr)
         end
     | Relate a f b ia ib =>
@@ -167,7 +187,10 @@ Section Hier.
         | (r, Some nw) => (ST (live s) (user s) r (vars s) (next s), OBool nw)
         | (r, None) => (s, OErr)
         end
-    | Clear => (ST (live s) (user s) empty_reg (vars s) (next s), ONone)
+    | Clear =>
+        (* a pending generator stays bound to the dropped graph: evaluating it later is outside the model *)
+        (ST (live s) (user s) empty_reg
+            (map (fun v => match snd v with VPending => (fst v, VStale) | _ => v end) (vars s)) (next s), ONone)
     end.
 
   Fixpoint run (s : st) (h : list op) : st * list out :=
@@ -192,6 +215,7 @@ Section Hier.
     | Drop x => existsb (Nat.eqb x) (user s)
     | Relate a f b ia ib =>
         adm_ensure (live s) (g s) a ia && adm_ensure (live s) (fst (ensure (live s) (g s) a ia)) b ib
+    | EvalV k => match nth_error (vars s) k with Some (_, VStale) => false | _ => true end
     | _ => true
     end.
 
